@@ -166,7 +166,8 @@ def ev(self, e: ast.AST, st: State) -> Term:
         if fi is None:
             raise Unsupported("lambda not indexed")
         self.fis[id(fi.node)] = fi
-        return mk("closure", fi.qualname, id(fi.node), len(self.frames) - 1)
+        self.frames[-1].made_closure = True
+        return mk("closure", fi.qualname, id(fi.node), len(self.frames) - 1, self.frames[-1].uid)
     if t is ast.JoinedStr:
         parts = []
         for v in e.values:
@@ -243,7 +244,7 @@ def truth(self, v: Term, st: State) -> Term:
         return C(bool(self.statics[v.args[0]]))
     if v.op in ("cmp", "and", "or", "isinst") or (v.op == "un" and v.args[0] == "Not"):
         return v
-    if v.op in ("func", "class", "bound", "closure", "module", "builtin", "ext"):
+    if v.op in ("func", "class", "bound", "closure", "partial", "module", "builtin", "ext"):
         return TRUE
     if v.op in ("tuple", "sbytes"):
         return C(len(v.args[0]) > 0)
@@ -279,7 +280,9 @@ def ev_name(self, e: ast.Name, st: State) -> Term:
             if name in st.envs[cf]:
                 return st.envs[cf][name]
             cf = self.frames[cf].closure_frame if cf < len(self.frames) else None
-        # nested function defined but frame gone
+        # nested function called after its defining activation returned
+        if fr.captured is not None and name in fr.captured:
+            return fr.captured[name]
     return self.lookup_global(fr.fi.module, name, st, e)
 
 
@@ -312,6 +315,21 @@ def lookup_global(self, m: ModuleInfo, name: str, st: State, node=None) -> Term:
 
                 if struct_layout(expr.args[0].value) is not None:
                     return mk("structobj", expr.args[0].value)
+        if isinstance(expr, ast.Call) and len(expr.args) == 2 and not expr.keywords and isinstance(expr.args[0], ast.Constant) and isinstance(expr.func, (ast.Name, ast.Attribute)):
+            # NAME = namedtuple("NAME", <constant field names>) at module level: the record class
+            fd = _dotted(expr.func)
+            rb_ = self.prog.resolve_symbol(rm, fd.split(".")[0]) if fd else None
+            full = (rb_[1] + fd[len(fd.split(".")[0]):]) if isinstance(rb_, tuple) and rb_[0] == "external" else None
+            if full == "collections.namedtuple":
+                try:
+                    fields_ = self.prog.fold(rm, expr.args[1])
+                    cls_t = mk("call", mk("ext", "collections.namedtuple"), (C(expr.args[0].value), self.lift(fields_ if isinstance(fields_, str) else tuple(fields_))), (), 0)
+                    from .models import namedtuple_fields
+
+                    if namedtuple_fields(cls_t) is not None:
+                        return cls_t
+                except (NotConst, RecursionError, TypeError):
+                    pass
         tgt = self.prog.resolve_expr_static(rm, expr) if isinstance(expr, (ast.Name, ast.Attribute)) else None
         if isinstance(tgt, FuncInfo):
             return self.fterm(tgt)
@@ -370,6 +388,12 @@ def _class_of(self, qual) -> Optional[ClassInfo]:
 
 def get_attr(self, base: Term, name: str, st: State, node=None) -> Term:
     op = base.op
+    if op == "tuple" and base.uid in self.nt_fields:
+        idx = {f.index(name) for f in self.nt_fields[base.uid] if name in f}
+        if len(idx) == 1:
+            return base.args[0][idx.pop()]
+        if len(idx) > 1:
+            raise Unsupported("attribute %s of a tuple that stands for named tuples of different classes" % name)
     if op == "structobj":
         if name == "size":
             import struct as _struct
@@ -815,6 +839,17 @@ def compare(self, op: str, l: Term, r: Term, st: State, node=None) -> Term:
         if op in ("Is", "Eq"):
             return TRUE
         return FALSE
+    if op in ("Eq", "NotEq") and l.op == "tuple" and r.op == "tuple" and 1 <= len(l.args[0]) == len(r.args[0]) <= 8:
+        # tuples of the same length are equal iff they are equal item by item
+        parts = [self.compare("Eq", a_, b_, st, node) for a_, b_ in zip(l.args[0], r.args[0])]
+        if any(is_const(p_) and not cval(p_) for p_ in parts):
+            conj = FALSE
+        else:
+            parts = [p_ for p_ in parts if not is_const(p_)]
+            conj = TRUE if not parts else parts[0] if len(parts) == 1 else mk("and", tuple(parts))
+        if op == "Eq":
+            return conj
+        return C(not cval(conj)) if is_const(conj) else neg(conj)
     if op in ("Eq", "NotEq") and self.sym_bytes and (l.op == "sbytes" or r.op == "sbytes"):
         verdict = _sbytes_equal(self, l, r)
         if verdict is not None:
@@ -918,7 +953,7 @@ def _none_status(self, t: Term, st: State):
     """True: is None; False: certainly not None; None: unknown"""
     if t is NONE:
         return True
-    if is_const(t) or t.op in ("static", "ref", "tuple", "sbytes", "func", "class", "bound", "closure", "module", "bin", "cmp", "len", "builtin"):
+    if is_const(t) or t.op in ("static", "ref", "tuple", "sbytes", "func", "class", "bound", "closure", "partial", "module", "bin", "cmp", "len", "builtin"):
         return False
     for (f, pol) in st.facts:
         if f.op == "cmp" and f.args[0] in ("Is", "IsNot") and f.args[1] is t and f.args[2] is NONE:
@@ -976,25 +1011,42 @@ def call(self, fn: Term, args: List[Term], kwargs: Dict[str, Term], st: State, n
         return self.call_function(fi, [fn.args[2]] + args, kwargs, st, node, self_term=fn.args[2])
     if op == "closure":
         fi = self.fis[fn.args[1]]
-        return self.call_function(fi, args, kwargs, st, node, closure_frame=fn.args[2])
+        cf = fn.args[2]
+        if len(fn.args) > 3 and not (cf < len(self.frames) and self.frames[cf].uid == fn.args[3]):
+            # the defining activation is still running somewhere else on the stack, or has returned: its variables as they were left
+            live = [i for i, f_ in enumerate(self.frames) if f_.uid == fn.args[3]]
+            if live:
+                return self.call_function(fi, args, kwargs, st, node, closure_frame=live[0])
+            return self.call_function(fi, args, kwargs, st, node, captured=self.dead_envs.get(fn.args[3], {}))
+        return self.call_function(fi, args, kwargs, st, node, closure_frame=cf)
     if op == "class":
         c = self.prog.classes.get(fn.args[0])
         if c is not None:
             return self.instantiate(c, args, kwargs, st, node)
+    if op == "partial":
+        return self.call(fn.args[0], list(fn.args[1]) + list(args), {**dict(fn.args[2]), **kwargs}, st, node)
     if op in ("phi", "or"):
         # call through a merged callable (`f or g` selects one of its operands): try each under a choice frame
         results = []
         saved = st.ctx
         uid = fresh_uid()
         alts = fn.args[1:] if op == "phi" else (fn.args[0] if len(fn.args) == 1 and isinstance(fn.args[0], tuple) else fn.args)
+        saved_facts = st.facts
+        # `f = g if c else h; f(...)`: each callee runs under the condition that selects it
+        real_cond = op == "phi" and len(alts) == 2 and isinstance(fn.args[0], Term) and fn.args[0].op not in ("sym", "const")
         for k, alt in enumerate(alts):
-            st.ctx = saved + (("choice", uid, k, show(alt, 2)),)
+            if real_cond:
+                st.ctx = saved + (("if", fn.args[0], k == 0, fresh_uid()),)
+                self.add_fact(st, fn.args[0], k == 0)
+            else:
+                st.ctx = saved + (("choice", uid, k, show(alt, 2)),)
             try:
                 results.append(self.call(alt, args, kwargs, st, node))
             except PathDead:
                 pass
             finally:
                 st.ctx = saved
+                st.facts = saved_facts
         if not results:
             raise PathDead()
         r = results[0]
@@ -1004,7 +1056,7 @@ def call(self, fn: Term, args: List[Term], kwargs: Dict[str, Term], st: State, n
     return self.models.call_model(self, fn, args, kwargs, st, node)
 
 
-def call_function(self, fi: FuncInfo, args, kwargs, st: State, node, self_term=None, closure_frame=None) -> Term:
+def call_function(self, fi: FuncInfo, args, kwargs, st: State, node, self_term=None, closure_frame=None, captured=None) -> Term:
     depth = len(self.frames)
     active = [f.fi for f in self.frames]
     site = fresh_uid()
@@ -1027,14 +1079,15 @@ def call_function(self, fi: FuncInfo, args, kwargs, st: State, node, self_term=N
     ev0 = self.emit("call", node, st, callee=fi, args=tuple(args), kwargs=dict(kwargs), result=None, inlined=True, recv=self_term, site=site)
     saved_ctx = st.ctx
     st.ctx = st.ctx + (("call", site, fi.qualname),)
-    if closure_frame is None and fi.parent is not None:
+    if closure_frame is None and fi.parent is not None and captured is None:
         # nested def referenced by name: find defining frame on the stack
         for i in range(len(self.frames) - 1, -1, -1):
             if self.frames[i].fi is fi.parent:
                 closure_frame = i
                 break
     try:
-        val, _ = self._run_body(fi, bind, st, closure_frame, node, self_term if self_term is not None else (args[0] if (fi.cls is not None and fi.kind in ("function", "classmethod") and args) else None))
+        val, _ = self._run_body(fi, bind, st, closure_frame, node, self_term if self_term is not None else (args[0] if (fi.cls is not None and fi.kind in ("function", "classmethod") and args) else None),
+                                captured=captured)
     finally:
         st.ctx = saved_ctx
     ev0.d["result"] = val
@@ -1202,6 +1255,10 @@ def iter_items(self, v: Term, st: State) -> Optional[List[Term]]:
         return None
     if v.op in ("tuple", "sbytes"):
         return list(v.args[0])
+    if v.op == "call" and isinstance(v.args[0], Term) and v.args[0].op == "builtin" and v.args[0].args[0] == "divmod" and len(v.args[1]) == 2 and not v.args[2]:
+        # divmod(a, b) is the pair (a // b, a % b)
+        a_, b_ = v.args[1]
+        return [mk("bin", "FloorDiv", a_, b_), mk("bin", "Mod", a_, b_)]
     if v.op == "ref":
         o = self.obj(st, v)
         if o is not None and o.kind in ("list", "set", "bytearray") and o.exact and (not o.is_gen or self.sym_bytes):
@@ -1216,6 +1273,12 @@ def iter_items(self, v: Term, st: State) -> Optional[List[Term]]:
             if all(l is not None for l in lists):
                 n = min(len(l) for l in lists) if lists else 0
                 return [mk("tuple", tuple(l[i] for l in lists)) for i in range(n)]
+            return None
+        if kind == "zip_longest":
+            lists = [self.iter_items(x, st) for x in base.args[0]]
+            if all(l is not None for l in lists):
+                n = max(len(l) for l in lists) if lists else 0
+                return [mk("tuple", tuple(l[i] if i < len(l) else v.args[2] for l in lists)) for i in range(n)]
             return None
         if kind == "enumerate":
             items = self.iter_items(base, st)
@@ -1364,6 +1427,10 @@ def ev_comp(self, e, st: State) -> Term:
 def elem_of(self, itv: Term, lid: int, st: State) -> Term:
     """symbolic element of an iterable (sees through lists filled by a single producer)"""
     o = self.obj(st, itv)
+    if o is not None and o.kind == "list" and not o.exact and len(o.items) == 1 and o.items[0][2] == "from" and isinstance(getattr(o, "base", None), Term) and o.base.op == "iterview" \
+            and o.base.args[0] in ("zip", "zip_longest", "enumerate"):
+        # list(zip(...)) that was not changed since: its element is the element of the view
+        return self.elem_of(o.base, lid, st)
     if o is not None and o.kind == "list" and not o.exact:
         entries = [it for it in o.items]
         terms = []
@@ -1389,6 +1456,13 @@ def elem_of(self, itv: Term, lid: int, st: State) -> Term:
             return mk("tuple", (idx, inner))
         if kind == "zip":
             return mk("tuple", tuple(self.elem_of(x, lid, st) for x in itv.args[1].args[0]))
+        if kind == "zip_longest":
+            # an item of the longest input; the shorter inputs contribute their own items or the fill value
+            return mk("tuple", tuple(mk("elem", mk("padded", x, itv.args[2]), lid) for x in itv.args[1].args[0]))
+        if kind == "reversed":
+            ro = self.obj(st, itv.args[1])
+            if ro is not None and ro.kind == "list" and not ro.exact and isinstance(getattr(ro, "base", None), Term) and ro.base.op == "iterview" and ro.base.args[0] in ("zip", "zip_longest"):
+                return self.elem_of(itv.args[1], lid, st)
         if kind == "items":
             return mk("tuple", (mk("key", itv.args[1], lid), mk("value", itv.args[1], lid)))
     return mk("elem", itv, lid)
